@@ -219,12 +219,12 @@ def crash_run(quick_programs, thorough_programs, props, variant='plain', extra=(
     return dict(harness='h_crash', variant=variant, args=list(extra), quick=quick_programs * 16, thorough=thorough_programs * 16, props=props, name='crash')
 
 
-CHECKS['C03'] = [crash_run(6, 300, ['C03'])]
+CHECKS['C03'] = [crash_run(6, 64, ['C03'])]
 LEVELS['C03'] = 'fault_enumeration'
 RULES['C03'] = 'program = 1-3 signals of mixed types (1-4 summary levels, omission, annotations/UTC/user data interleaved, late definitions) run under the backend write log; EVERY cut between two writes and byte prefixes of the next write (all prefixes of writes <= 40 bytes, 6 prefixes otherwise; quick: for every 4th write) is materialised and opened by the real reader in its own process; everything exposed must be an unaltered in-order part of what was submitted (samples bit-exact, statistics by the C02 oracle); clause 2 (cut between writes, definitions on disk): open succeeds and at most the block in flight is lost. evaluations = crash images; distinct = program classes'
 ASSUME['C03'] = ['crash model: a prefix of the backend write sequence reaches the disk in order, the last write possibly partially (no reordering of writes by the OS)', 'synchronous writer programs only in this run; files <= ~60 KiB'] + DECODER_ASSUMPTIONS
 
-CHECKS['C19'] = [file_run('mix', 100, 5000, ['C19']), crash_run(3, 100, ['C19'])]
+CHECKS['C19'] = [file_run('mix', 100, 5000, ['C19']), crash_run(3, 40, ['C19'])]
 
 CHECKS['C04'] = [dict(harness='h_flip', variant='plain', args=[], quick=2 * 16, thorough=12 * 16, props=['C04'], name='flip')]
 LEVELS['C04'] = 'fault_enumeration'
